@@ -293,3 +293,155 @@ CANARIES = list(globals().get("CANARIES", [])) + [
     dict(name="ProcessorSampler releases its slot before awaiting the results", file=FP, function=FP + ":ProcessorSampler._run_sweep_async",
          find="            )\n\n            return await job.results_async()", replace="            )\n\n        return await job.results_async()"),
 ]
+
+
+# ---- EngineJob._await_result_async: a result is only asked for, and a failure only reported, for a job that has FINISHED -----------------
+FJ = "cirq-google/cirq_google/engine/engine_job.py"
+QJobS = sym.sort("QJob")
+TERMINAL = z3.Function("job_state_is_terminal", QJobS, z3.BoolSort())
+SUCCESS = z3.Function("job_state_is_success", QJobS, z3.BoolSort())
+_EJ = {"log": []}
+
+
+def _qjob(name, terminal):
+    j = sym.fresh_obj("QJob", name)
+    p = paths.current()
+    p.assume(z3.Implies(SUCCESS(j.e), TERMINAL(j.e)))  # SUCCESS is one of the terminal states
+    if terminal:
+        p.assume(TERMINAL(j.e))
+    return j
+
+
+class _ResultFuture(sym.Sym):
+    """the stream's future for this job: delivers a QuantumResult, a (finished) QuantumJob, or fails with StreamError"""
+
+    def __init__(self, kind):
+        self.kind = kind
+
+
+def _await_hook(interp, v, node, env):
+    from cirq_google.engine.stream_manager import StreamError
+
+    if isinstance(v, _ResultFuture):
+        if v.kind == "stream-error":
+            raise StreamError("stream broke")
+        if v.kind == "result":
+            return _STREAM_RESULT
+        return _qjob("stream_job", terminal=True)  # assumption: the stream answers with a QuantumJob only once the job has finished (failed)
+    return v
+
+
+_STREAM_RESULT = SObj(z3.Const("stream_result", sym.sort("QResult")), "QResult")
+
+
+def _ej_isinstance(interp, x, T):
+    from cirq_google.cloud import quantum
+
+    if isinstance(x, SObj) and x.sortname in ("QResult", "QJob"):
+        return (T is quantum.QuantumResult and x.sortname == "QResult") or (T is quantum.QuantumJob and x.sortname == "QJob") or T is object
+    return NotImplemented
+
+
+def stream_result():
+    return _STREAM_RESULT
+
+
+stream_result._pyvc_native_ok = True
+
+
+def _m_poll(interp, args, kwargs):
+    """_await_completion_by_polling: polls until the job is in a terminal state; or the service answers NOT_FOUND / another error"""
+    from http import HTTPStatus
+    from cirq_google.engine import engine_client
+
+    p = paths.current()
+    _EJ["log"].append("poll")
+    if p.branch(sym.fresh_bool("poll_not_found").e):
+        raise engine_client.EngineException("not found", code=HTTPStatus.NOT_FOUND)
+    if p.branch(sym.fresh_bool("poll_other_error").e):
+        raise engine_client.EngineException("unavailable", code=HTTPStatus.SERVICE_UNAVAILABLE)
+    return _qjob("polled_job", terminal=True)
+
+
+def _m_refresh(interp, args, kwargs):
+    """_refresh_job_async: ONE look at the job, whatever state it is in"""
+    _EJ["log"].append("refresh")
+    return _qjob("refreshed_job", terminal=False)
+
+
+def _m_raise_on_failure(interp, args, kwargs):
+    (job,) = args
+    p = paths.current()
+    p.prove(TERMINAL(job.e), f"{interp.current_owner}#assert@_raise_on_failure.job-has-finished", "assert")
+    if not p.branch(SUCCESS(job.e)):
+        raise RuntimeError("job did not succeed")
+    return None
+
+
+class _Client(sym.Sym):
+    def get_job_results_async(self, *a):
+        _EJ["log"].append("get-results")
+        return "POLLED-RESULT"
+
+
+def _recreated():
+    import cirq_google
+
+    _EJ["log"].append("recreate")
+    ctx = SRec(type("Ctx", (), {}), {"client": _Client(), "timeout": 10})
+    return SRec(cirq_google.EngineJob, {"project_id": "p2", "program_id": "g2", "job_id": "j2", "context": ctx, "_job": None, "_results": None, "_batched_results": None,
+                                         "_job_result_future": None, "_recreate_job": None})
+
+
+_recreated._pyvc_native_ok = True
+
+
+def _engine_job(future_kind, can_recreate):
+    def mk(name):
+        import cirq_google
+
+        _EJ["log"] = []
+        ctx = SRec(type("Ctx", (), {}), {"client": _Client(), "timeout": 10})
+        return SRec(cirq_google.EngineJob, {"project_id": "p", "program_id": "g", "job_id": "j", "context": ctx, "_job": None, "_results": None, "_batched_results": None,
+                                             "_job_result_future": None if future_kind is None else _ResultFuture(future_kind), "_recreate_job": _recreated if can_recreate else None})
+    return mk
+
+
+def log_is(*events):
+    return _EJ["log"] == list(events)
+
+
+def log_in(*alternatives):
+    return any(_EJ["log"] == list(a) for a in alternatives)
+
+
+log_is._pyvc_native_ok = True
+log_in._pyvc_native_ok = True
+
+_EJ_CASES = []
+for _fk in (None, "result", "job", "stream-error"):
+    for _rc in (False, True):
+        _ens = ["result == stream_result() and log_is()"] if _fk == "result" else [
+            # a result fetched by polling: the job was polled to completion (after at most one re-creation), never just looked at once
+            "result == 'POLLED-RESULT' and log_in(('poll', 'get-results'), ('poll', 'recreate', 'poll', 'get-results'))"]
+        _EJ_CASES.append(Case(f"stream future: {_fk}; re-creation {'possible' if _rc else 'not possible'}", {"self": _engine_job(_fk, _rc)}, ensures=_ens))
+
+Contract(
+    FJ + ":EngineJob._await_result_async", "C20",
+    cases=_EJ_CASES,
+    env={"log_is": log_is, "log_in": log_in, "stream_result": stream_result},
+    # exceptions that may leave the function, and where: a service error only out of a poll; "the job did not succeed" only for a finished job
+    # (that it HAS finished is the assertion at _raise_on_failure), i.e. straight from the stream's answer or after a poll
+    may_raise={"EngineException": "log_in(('poll',), ('poll', 'recreate', 'poll'))", "RuntimeError": "log_in((), ('poll',), ('poll', 'recreate', 'poll'))"},
+    models={("cirq_google.engine.engine_job", "EngineJob._await_completion_by_polling"): _m_poll, ("cirq_google.engine.engine_job", "EngineJob._refresh_job_async"): _m_refresh,
+            ("cirq_google.engine.engine_job", "_raise_on_failure"): _m_raise_on_failure},
+    hooks={"await": _await_hook, "isinstance": _ej_isinstance},
+    notes="job states abstract (terminal / success predicates); a failure is reported, and results are fetched, only for a job that _await_completion_by_polling "
+          "(or the stream) delivered as finished; a lost job is re-created at most once and then polled to completion; exceptions of the service pass through",
+)
+
+CANARIES = list(globals().get("CANARIES", [])) + [
+    dict(name="EngineJob looks at the re-created job once instead of polling it to completion", file=FJ, function=FJ + ":EngineJob._await_result_async",
+         find="                self._job_result_future = new_job._job_result_future\n\n                self._job = await self._await_completion_by_polling()",
+         replace="                self._job_result_future = new_job._job_result_future\n\n                self._job = await self._refresh_job_async()"),
+]
